@@ -501,6 +501,51 @@ def _is_trivial_size_guard(n) -> bool:
 # ----------------------------------------------------------------------------------------
 
 
+def check_effective_threshold(ctx: Ctx):
+    """R03.8: the threshold a matcher works with is the one it was given - for every NUMBER, including 0
+    (a threshold of 0 is the strictest ASSD threshold and the most permissive IoU/Dice threshold).  The
+    matcher constructors are run on thresholds 0, 0.0, 0.25, 1.0 with an increasing and a decreasing
+    metric; whatever normalisation sits between the parameter and the stored attribute must be the
+    identity on numbers."""
+    from fractions import Fraction
+
+    prog = ctx.prog
+    n = 0
+    for cls, f in matcher_classes(ctx):
+        init = cls.lookup("__init__")
+        if init is None:
+            continue
+        names = [p.name for p in init.call_params]
+        tp = next((x for x in names if "thr" in x.lower()), None)
+        mp = next((x for x in names if "metric" in x.lower()), None)
+        if tp is None:
+            continue
+        attr = next((a for a in _threshold_attrs(prog, cls, tp)), None)
+        for dec in (False, True):
+            mv, me = make_metric_objs(prog, dec)
+            for thr in (0, 0.0, Fraction(1, 4), 1.0):
+                o = Obj(cls, {})
+                args = {tp: thr}
+                if mp:
+                    args[mp] = me
+                it = Interp(prog, init, args, self_obj=o)
+                out = it.run()
+                construct = f"{init.qual}:threshold={thr!r},decreasing={dec}"
+                if out.kind == "raise" or out.decisions:
+                    ctx.decide("R03.8", init, out.node, construct, "a matcher is constructed for every numeric threshold", None if out.decisions else False, {"outcome": out.kind, "exc": out.exc})
+                    continue
+                n += 1
+                stored = [(k, v) for k, v in o.attrs.items() if "thr" in k.lower()]
+                ok = bool(stored) and all(v == thr and type(v) is type(thr) or (isinstance(v, (int, float, Fraction)) and v == thr) for _, v in stored)
+                ctx.decide("R03.8", init, init.node, construct, "the stored matching threshold is the given one", ok, {"given": repr(thr), "stored": {k: repr(v) for k, v in stored}})
+    if n < 8:
+        ctx.undecided("R03.8.floor", None, None, "floor:R03.8", f"{n} matcher constructions evaluated, confirmed floor is 8")
+
+
+def _threshold_attrs(prog, cls, param):
+    return [param]
+
+
 def check_beats(ctx: Ctx):
     prog = ctx.prog
     sites = [prog.func("metrics.metrics:_Metric.score_beats_threshold"), prog.func("metrics.metrics:Metric.score_beats_threshold")]
@@ -909,6 +954,7 @@ def check(ctx: Ctx):
     _guarded(ctx, "R03.1", check_codec)
     _guarded(ctx, "R03.2", check_candidates)
     _guarded(ctx, "R03.3", check_beats)
+    _guarded(ctx, "R03.8", check_effective_threshold)
     n = _guarded(ctx, "R03.4", check_naive)
     # completeness of candidate discovery also needs the pair codes not to wrap (R09.1)
     from . import c09
